@@ -32,8 +32,24 @@ pub fn gen_wf(r: &mut Rng) -> (Vec<String>, Doc) {
         for m in d.models.iter_mut() { for a in m.1.iter_mut() { if a.resseq % 3 == 0 { a.resname = a.resname.to_lowercase(); } } }
     }
     let mut lines = pdbtext::render(&d, r, true);
-    // optional metadata records that need a chain: DBREF + SEQADV (+ MODRES on an existing residue)
+    // chain ids left blank (the reader then names the chains A, B, … by counting TER records), with the TER records
+    // spelled in every accepted way: bare, padded, with serial number and residue
+    // trailing blanks removed from every record, as many programs write them (short MTRIX, CRYST1, ATOM … lines)
+    // (records whose last columns are optional; an ATOM record needs its element columns)
+    if r.chance(1, 5) { for l in lines.iter_mut() { if ["MTRIX", "SCALE", "ORIGX", "REMARK", "MODEL", "ENDMDL", "TER", "END", "CRYST1"].iter().any(|p| l.starts_with(p)) { *l = l.trim_end().to_string(); } } }
+    let blank_chains = r.chance(1, 6);
+    if blank_chains {
+        for l in lines.iter_mut() {
+            if (l.starts_with("ATOM") || l.starts_with("HETATM") || l.starts_with("ANISOU")) && l.len() > 22 && l.is_ascii() { l.replace_range(21..22, " "); }
+        }
+    }
     if r.chance(1, 3) {
+        for l in lines.iter_mut() {
+            if l == "TER" { *l = r.pick(&["TER", "TER   ", "TER     123      ALA A  12", "TER                                                                             "]).to_string(); }
+        }
+    }
+    // optional metadata records that need a chain: DBREF + SEQADV (+ MODRES on an existing residue)
+    if !blank_chains && r.chance(1, 3) {
         if let Some(a) = d.models.first().and_then(|m| m.1.first()).cloned() {
             let mut extra = vec![format!("DBREF  1ABC {} {:>4}  {:>4}  UNP    P12345   TEST_HUMAN   {:>5}  {:>5} ", a.chain, a.resseq, a.resseq + 50, 1, 51)];
             if r.chance(1, 2) { extra.push(format!("SEQADV 1ABC MET {} {:>4}  UNP  P12345    ALA    12 ENGINEERED MUTATION   ", a.chain, a.resseq)); }
@@ -111,6 +127,15 @@ pub fn gen(tier: &str, r: &mut Rng) -> Vec<String> {
             let (ia, ib) = (ic(&mut rr, a.2), ic(&mut rr, b.2));
             let mut l = format!("SSBOND {:>3} CYS {} {:>4}{}   CYS {} {:>4}{}{}{:>6} {:>6} {:>5}", k2 + 1, a.0, a.1, ia, b.0, b.1, ib, " ".repeat(23), "1555", "1555", "2.03");
             if rr.chance(1, 10) { l.truncate(*rr.pick(&[35usize, 36, 59, 72, 77])); unknown = true; }
+            // an unreadable symmetry operator or distance in a record of 77, 78 (complete) or more characters
+            else if rr.chance(1, 6) {
+                let mut cs: Vec<char> = l.chars().collect();
+                let k = *rr.pick(&[60usize, 68, 75]);
+                if k < cs.len() { cs[k] = *rr.pick(&['x', ' ', '-']); }
+                l = cs.into_iter().collect();
+                if rr.chance(1, 3) { l.truncate(77); }
+                unknown = true;
+            }
             if rr.chance(1, 5) { l.push_str("  "); }
             if has_sg(a.0, a.1, ia) && has_sg(b.0, b.1, ib) { bonds += 1; } else { missing = true; }
             lines.push(l);
